@@ -58,6 +58,10 @@ pub fn encrypt_in_place_xnonce(buffer: &mut [u8], xnonce: &[u8; 24], key: &[u8; 
 /// The implementation is provided by the `getrandom` crate. Refer to
 /// `getrandom` documentation for details.
 pub fn generate_random_bytes<const N: usize>() -> [u8; N] {
+    #[cfg(feature = "verif_hooks")]
+    if let Some(bytes) = crate::verif::seeded_bytes::<N>() {
+        return bytes;
+    }
     let mut bytes = [0; N];
     OsRng.fill_bytes(&mut bytes);
     bytes
